@@ -363,7 +363,11 @@ def _check_metrics(x, y):
 
 def replay_metrics(seed):
     rng = np.random.default_rng(seed)
-    for x, y in ((np.zeros((2, 2)), np.zeros((2, 2))), (rng.random((3, 2)), rng.random((3, 2))), (np.ones((1, 1)), np.zeros((1, 1)))):
+    base = rng.random((3, 3))
+    tiny = base.copy()
+    tiny[0, 2] += 1e-7
+    for x, y in ((np.zeros((2, 2)), np.zeros((2, 2))), (rng.random((3, 2)), rng.random((3, 2))), (np.ones((1, 1)), np.zeros((1, 1))),
+                 (tiny, base), (base * 1e-6, base[::-1] * 1e-6)):
         try:
             res = _check_metrics(x, y)
         except Exception as e:
@@ -392,8 +396,12 @@ def bounded(rep: Report, tier, seed):
             rgb = lo + (hi - lo) * rng.random(shp + (3,))
             b2.case(f"{P}.bounded.colour", (lo, hi, shp), lambda rgb=rgb: _check_colour(rgb, 0.25), f"colour round trip on range [{lo},{hi}] shape {shp}",
                     facts={"min": float(rgb.min()), "max": float(rgb.max())}, inputs={"rgb": rgb})
+    base = rng.random((3, 3))
+    tiny = base.copy()
+    tiny[1, 1] += 1e-7
     for x, y in ((np.zeros((2, 2)), np.zeros((2, 2))), (rng.random((3, 2)), rng.random((3, 2))), (np.ones((1, 1)), np.zeros((1, 1))),
-                 (np.zeros((2, 3)), rng.random((2, 3))), (rng.random((2, 2, 4)), rng.random((2, 2, 4)))):
+                 (np.zeros((2, 3)), rng.random((2, 3))), (rng.random((2, 2, 4)), rng.random((2, 2, 4))),
+                 (tiny, base), (base * 1e-6, base[::-1] * 1e-6), (base * 1e6, tiny * 1e6), (np.array([[1e-9]]), np.array([[0.0]]))):
         b2.case(f"{P}.bounded.metrics", (x.shape, float(x.sum()), float(y.sum())), lambda x=x, y=y: _check_metrics(x, y), "metric zero-consistency", inputs={"x": x, "y": y})
 
     def awgn():
